@@ -174,28 +174,51 @@ func vc27ClusterStatus(t *rapid.T) *pilosa.ClusterStatus {
 	return &pilosa.ClusterStatus{ClusterID: vc27Str(t, "clusterID"), State: vc27Str(t, "cstate"), Nodes: vc27Nodes(t)}
 }
 
-// attribute values as the attribute stores hold them
+// vc27AttrKinds: one generator per value kind that encodeAttr accepts. The keys are the case types of its type
+// switch plus "default" for the branch taken by every other value; TestVerifC27_Registry reads the switch from the
+// source and fails when the two sets differ. In the default branch the only value that has a meaning of its own is
+// nil ("attribute removed"): it is sent as an Attr without a type and decodes to key: nil.
+var vc27AttrKinds = map[string]func(t *rapid.T, label string) interface{}{
+	"string": func(t *rapid.T, label string) interface{} { return vc27Str(t, label+"sval") },
+	"int64":  func(t *rapid.T, label string) interface{} { return vc27I64(t, label+"ival") },
+	// decodes as the int64 of the same value (vc27Dump identifies the two inside attribute maps)
+	"uint64": func(t *rapid.T, label string) interface{} {
+		return uint64(rapid.Int64Range(0, math.MaxInt64).Draw(t, label+"uval"))
+	},
+	"bool": func(t *rapid.T, label string) interface{} { return rapid.Bool().Draw(t, label+"bval") },
+	"float64": func(t *rapid.T, label string) interface{} {
+		return rapid.SampledFrom([]float64{0, 1, -1.5, 1e21, math.MaxFloat64, math.SmallestNonzeroFloat64, math.Inf(1), 0.1, math.Copysign(0, -1)}).Draw(t, label+"fval")
+	},
+	"default": func(t *rapid.T, label string) interface{} { return nil },
+}
+
+var vc27AttrKindNames = func() []string {
+	var names []string
+	for k := range vc27AttrKinds {
+		names = append(names, k)
+	}
+	sort.Strings(names)
+	return names
+}()
+
+// attribute maps: every value kind of encodeAttr, nil maps, empty maps, empty keys
 func vc27Attrs(t *rapid.T, label string) map[string]interface{} {
-	n := rapid.IntRange(0, 3).Draw(t, label+"n")
+	n := rapid.IntRange(0, 4).Draw(t, label+"n")
 	if n == 0 && rapid.Bool().Draw(t, label+"nil") {
 		return nil
 	}
 	m := map[string]interface{}{}
 	for i := 0; i < n; i++ {
 		k := vc27Str(t, label+"key")
-		switch rapid.IntRange(0, 3).Draw(t, label+"vkind") {
-		case 0:
-			m[k] = vc27Str(t, label+"sval")
-		case 1:
-			m[k] = vc27I64(t, label+"ival")
-		case 2:
-			m[k] = rapid.Bool().Draw(t, label+"bval")
-		default:
-			m[k] = rapid.SampledFrom([]float64{0, 1, -1.5, 1e21, math.MaxFloat64, math.SmallestNonzeroFloat64, math.Inf(1), 0.1}).Draw(t, label+"fval")
-		}
+		kind := rapid.SampledFrom(vc27AttrKindNames).Draw(t, label+"vkind")
+		m[k] = vc27AttrKinds[kind](t, label)
+		vc27AttrKindSeen[kind]++
 	}
 	return m
 }
+
+// how often each attribute value kind was generated (reported as classes by the round-trip test)
+var vc27AttrKindSeen = map[string]int{}
 
 func vc27Row(t *rapid.T) *pilosa.Row {
 	if rapid.IntRange(0, 7).Draw(t, "rownil") == 0 {
@@ -472,12 +495,22 @@ func vc27Dump(v reflect.Value, sb *strings.Builder) {
 		sb.WriteString("map{")
 		for _, k := range keys {
 			fmt.Fprintf(sb, "%q:", fmt.Sprint(k))
-			vc27Dump(v.MapIndex(k), sb)
+			el := v.MapIndex(k)
+			if el.Kind() == reflect.Interface && !el.IsNil() && el.Elem().Kind() == reflect.Uint64 && el.Elem().Uint() <= math.MaxInt64 {
+				// attribute values: a uint64 is stored and sent as the int64 of the same value
+				fmt.Fprintf(sb, "int64(%d)", el.Elem().Uint())
+			} else {
+				vc27Dump(el, sb)
+			}
 			sb.WriteString(",")
 		}
 		sb.WriteString("}")
 	case reflect.Float64, reflect.Float32:
-		fmt.Fprintf(sb, "%s(%x)", v.Kind(), math.Float64bits(v.Float()))
+		f := v.Float()
+		if f == 0 {
+			f = 0 // -0 and +0 are equal; proto3 does not put a zero on the wire at all
+		}
+		fmt.Fprintf(sb, "%s(%x)", v.Kind(), math.Float64bits(f))
 	case reflect.String:
 		fmt.Fprintf(sb, "%q", v.String())
 	default:
